@@ -11,12 +11,11 @@ PID = 'C11'
 
 
 def units(tier, seed):
-    t = _mk.QUICK_TABLES if tier == 'quick' else _mk.THOROUGH_TABLES
-    us = gen.kernel_units(t) + _mk.table_units(t, split_from=6)
-    return _mk.order(us)
+    return _mk.order(_mk.lattice_level_units(tier, seed))
 
 
 unit_kernel = _mk.kernel_unit_for(PID)
+unit_inductive = _mk.inductive_unit_for(PID)
 
 
 def unit_table(args, prefix=(), max_depth=None):
